@@ -322,6 +322,103 @@ def _run_one(args):
         shutil.rmtree(d, ignore_errors=True)
 
 
+def apply_unified(diff_text, root):
+    """Apply a git-style unified diff below `root` (pure Python: no patch/git needed).  Returns None on success, else the reason."""
+    import re
+    files = re.split(r'^diff --git .*$', diff_text, flags=re.M)[1:]
+    if not files:
+        return 'no file sections'
+    for sec in files:
+        m = re.search(r'^\+\+\+ b/(.+)$', sec, flags=re.M)
+        if not m:
+            return 'no target file'
+        rel = m.group(1).strip()
+        path = os.path.join(root, rel)
+        m0 = re.search(r'^--- (.+)$', sec, flags=re.M)
+        creating = bool(m0 and m0.group(1).strip() == '/dev/null')
+        try:
+            lines = [] if creating else open(path, encoding='utf-8').read().split('\n')
+        except OSError:
+            return f'{rel} missing'
+        hunks = re.split(r'^@@ -(\d+)(?:,(\d+))? \+(\d+)(?:,(\d+))? @@.*$', sec, flags=re.M)
+        out_shift = 0
+        for i in range(1, len(hunks), 5):
+            start = int(hunks[i])
+            body = hunks[i + 4].split('\n')
+            if body and body[0] == '':
+                body = body[1:]
+            if body and body[-1] == '':
+                body = body[:-1]        # artefact of splitting the text after the last line of the hunk
+            oldl, newl = [], []
+            for ln in body:
+                if ln.startswith('\\'):
+                    continue
+                if ln.startswith('+'):
+                    newl.append(ln[1:])
+                elif ln.startswith('-'):
+                    oldl.append(ln[1:])
+                elif ln.startswith(' ') or ln == '':
+                    if ln == '' and not (oldl or newl):
+                        continue
+                    oldl.append(ln[1:])
+                    newl.append(ln[1:])
+            while oldl and newl and oldl[-1] == '' and newl[-1] == '' and (start - 1 + out_shift + len(oldl)) > len(lines):
+                oldl.pop()
+                newl.pop()
+            pos = None
+            guess = start - 1 + out_shift
+            for off in sorted(range(-60, 61), key=abs):
+                p0 = guess + off
+                if p0 >= 0 and lines[p0:p0 + len(oldl)] == oldl:
+                    pos = p0
+                    break
+            if pos is None:
+                return f'hunk at line {start} of {rel} does not apply'
+            lines[pos:pos + len(oldl)] = newl
+            out_shift += len(newl) - len(oldl) + (pos - guess)
+        os.makedirs(os.path.dirname(path), exist_ok=True)
+        with open(path, 'w', encoding='utf-8') as f:
+            f.write('\n'.join(lines))
+    return None
+
+
+def _run_patch(args):
+    """A recorded change (seeded breaking change or behaviour-preserving refactoring) applied to a scratch copy of the tree."""
+    prop, repo, name, kind, expect = args
+    diff_path = os.path.join(HERE, kind, name, 'patch.diff')
+    try:
+        diff = open(diff_path, encoding='utf-8').read()
+    except OSError:
+        return name, 'skipped', 'patch file missing'
+    d = tempfile.mkdtemp(prefix=f'midolint_{prop}_')
+    try:
+        shutil.copytree(os.path.join(repo, 'mido'), os.path.join(d, 'mido'), ignore=shutil.ignore_patterns('__pycache__'))
+        why = apply_unified(diff, d)
+        if why:
+            return name, 'skipped', f'recorded patch no longer applies ({why})'
+        env = dict(os.environ)
+        env['MIDOLINT_NO_SELFTEST'] = '1'
+        r = subprocess.run([sys.executable, os.path.join(HERE, 'midolint', 'main.py'), prop, '--repo', d,
+                            '--evidence-dir', os.path.join(d, 'ev')], capture_output=True, text=True, env=env, timeout=900)
+        got = {0: 'silent', 1: 'caught'}.get(r.returncode, f'exit {r.returncode}')
+        first = next((ln for ln in r.stdout.splitlines() if ' - R' in ln or 'ANALYSIS-ERROR' in ln), '')
+        return name, ('ok' if got == expect else 'MISMATCH'), f'expected {expect}, got {got}; {first[:160]}'
+    finally:
+        shutil.rmtree(d, ignore_errors=True)
+
+
+def recorded(prop):
+    """(name, kind, expectation) of the recorded sub-agent changes for this property."""
+    out = []
+    for kind, expect in (('seeded', 'caught'), ('refactors', 'silent')):
+        base = os.path.join(HERE, kind)
+        if os.path.isdir(base):
+            for name in sorted(os.listdir(base)):
+                if name.startswith(prop + '-') and os.path.isfile(os.path.join(base, name, 'patch.diff')):
+                    out.append((name, kind, expect))
+    return out
+
+
 def run(prop, repo, evidence_dir=None):
     t0 = time.time()
     cat = CATALOGUE.get(prop, [])
@@ -340,6 +437,18 @@ def run(prop, repo, evidence_dir=None):
         rel, old, new, expect = cat[idx]
         print(f'ANALYSIS-ERROR: property={prop} self-test mutant #{idx} in {rel} ({old.strip().splitlines()[0][:50]!r} -> '
               f'{new.strip().splitlines()[0][:50] if new.strip() else "<deleted>"!r}): {why}')
+    # recorded changes from the sub-agent rounds: breaking ones must be reported, refactorings must stay silent
+    rec = recorded(prop)
+    rec_results = []
+    with ThreadPoolExecutor(max_workers=min(16, max(1, len(rec)))) as ex:
+        for r in ex.map(_run_patch, [(prop, repo, name, kind, expect) for name, kind, expect in rec]):
+            rec_results.append(r)
+    rbad = [r for r in rec_results if r[1] == 'MISMATCH']
+    print(f'[{prop}] recorded changes: {sum(1 for r in rec if r[2] == "caught")} breaking (must be caught), '
+          f'{sum(1 for r in rec if r[2] == "silent")} refactorings (must stay silent): {sum(1 for r in rec_results if r[1] == "ok")} as expected, '
+          f'{sum(1 for r in rec_results if r[1] == "skipped")} skipped, {len(rbad)} mismatches in {time.time() - t0:.1f}s total')
+    for name, st, why in rbad:
+        print(f'ANALYSIS-ERROR: property={prop} recorded change {name}: {why}')
     # record in the evidence file
     ev_dir = evidence_dir or os.path.join(HERE, 'evidence')
     p = os.path.join(ev_dir, f'{prop}.json')
@@ -350,10 +459,11 @@ def run(prop, repo, evidence_dir=None):
         ev['coverage']['selftest'] = {
             'mutants': len(cat), 'as_expected': ok, 'skipped': len(skipped), 'mismatches': len(bad),
             'details': [{'file': cat[i][0], 'expect': cat[i][3], 'result': st, 'note': why} for i, st, why in results],
+            'recorded_changes': [{'change': name, 'result': st, 'note': why} for name, st, why in rec_results],
         }
         ev['wall_s'] = round(ev.get('wall_s', 0) + time.time() - t0, 3)
         with open(p, 'w') as f:
             json.dump(ev, f, indent=1, default=str)
     except OSError:
         pass
-    return 2 if bad else 0
+    return 2 if (bad or rbad) else 0
